@@ -193,6 +193,42 @@ func flattenTwice(kind, text string) (flat, acc, flat2, acc2 J, ok bool) {
 	return flat, acc, flat2, acc2, true
 }
 
+// flattenSecond: `first` and `text` are two stanzas of one document; the typed view of the second is projected.
+func flattenSecond(kind, first, text string) (flat, acc, flat2, acc2 J, ok bool) {
+	defer func() {
+		if r := recover(); r != nil {
+			flat, acc, flat2, acc2, ok = J{}, J{}, J{}, J{}, false
+		}
+	}()
+	doc := first + "\n" + text
+	var project func() (J, J)
+	switch kind {
+	case "binpara":
+		c, err := control.ParseControl(bufioReader("Source: x\nMaintainer: m\n\n"+doc), "/srv/x/debian/control")
+		if err != nil || len(c.Binaries) != 2 {
+			return J{}, J{}, J{}, J{}, false
+		}
+		project = func() (J, J) { return flatBinPara(&c.Binaries[1]) }
+	case "packages":
+		l, err := control.ParseBinaryIndex(bufioReader(doc))
+		if err != nil || len(l) != 2 {
+			return J{}, J{}, J{}, J{}, false
+		}
+		project = func() (J, J) { return flatPackages(&l[1]) }
+	case "sources":
+		l, err := control.ParseSourceIndex(bufioReader(doc))
+		if err != nil || len(l) != 2 {
+			return J{}, J{}, J{}, J{}, false
+		}
+		project = func() (J, J) { return flatSources(&l[1]) }
+	default:
+		die("docs: no multi-stanza form for kind %s", kind)
+	}
+	flat, acc = project()
+	flat2, acc2 = project()
+	return flat, acc, flat2, acc2, true
+}
+
 func flatten(kind, text string) (flat J, acc J, ok bool) {
 	defer func() {
 		if r := recover(); r != nil {
@@ -266,6 +302,12 @@ func execDocs(vec J, out *Writer) {
 		}
 		out.Put(J{"ev": "keys", "in": vec, "keys": keys})
 	case "doc":
+		if pre, ok := vec["prefix"]; ok {
+			// the stanza under test is the SECOND of its document
+			flat, acc, flat2, acc2, ok := flattenSecond(vec["kind"].(string), S(pre), S(vec["bytes"]))
+			out.Put(J{"ev": "doc", "in": vec, "parsed": ok, "flat": flat, "acc": acc, "flat2": flat2, "acc2": acc2})
+			return
+		}
 		flat, acc, flat2, acc2, ok := flattenTwice(vec["kind"].(string), S(vec["bytes"]))
 		out.Put(J{"ev": "doc", "in": vec, "parsed": ok, "flat": flat, "acc": acc, "flat2": flat2, "acc2": acc2})
 	default:
